@@ -10,6 +10,10 @@ import (
 	"encoding/json"
 	"flag"
 	"fmt"
+	"github.com/cronokirby/saferith"
+	"github.com/taurusgroup/multi-party-sig/pkg/paillier"
+	"github.com/taurusgroup/multi-party-sig/pkg/pedersen"
+	"math/big"
 	"os"
 	"reflect"
 	"sort"
@@ -73,10 +77,10 @@ type Failure struct {
 
 type Result struct {
 	System       string                   `json:"system"`
-	Evaluations  int                      `json:"evaluations"`  // cases whose outcome was compared with the expected verdict
-	Reached      int                      `json:"reached"`      // distinct cases that reached Verify on the real code
-	Trivial      []string                 `json:"trivial"`      // substitutions that were no-ops (equal values), not evaluated
-	Refused      []string                 `json:"refused"`      // cases where the (cheating) prover itself panicked, not evaluated
+	Evaluations  int                      `json:"evaluations"` // cases whose outcome was compared with the expected verdict
+	Reached      int                      `json:"reached"`     // distinct cases that reached Verify on the real code
+	Trivial      []string                 `json:"trivial"`     // substitutions that were no-ops (equal values), not evaluated
+	Refused      []string                 `json:"refused"`     // cases where the (cheating) prover itself panicked, not evaluated
 	Failures     []Failure                `json:"failures"`
 	Inconclusive []string                 `json:"inconclusive"` // table out of date etc.
 	Samples      []map[string]interface{} `json:"samples"`
@@ -321,6 +325,48 @@ func (e *engine) runCase(c Case) {
 			return
 		}
 		proof = cp
+	case "modshift":
+		ra, rel, perr := rootOf(a, c.Field)
+		if perr != nil {
+			e.res.Inconclusive = append(e.res.Inconclusive, tag+": "+perr.Error())
+			return
+		}
+		va, gerr := getPath(ra, rel)
+		if gerr != nil {
+			e.res.Inconclusive = append(e.res.Inconclusive, tag+": structure table out of date: "+gerr.Error())
+			return
+		}
+		cur := residueOf(va)
+		if cur == nil {
+			e.res.Trivial = append(e.res.Trivial, tag+": not a residue")
+			return
+		}
+		// the modulus the value lives in: the smallest N (arg n) or N^2 (arg n2) of the statement's keys that exceeds it
+		var M *big.Int
+		for _, n := range moduliOf(reflect.ValueOf(a.pub), 0) {
+			m := new(big.Int).Set(n)
+			if c.Arg == "n2" {
+				m.Mul(m, m)
+			}
+			if m.Cmp(cur) > 0 && (M == nil || m.Cmp(M) < 0) {
+				M = m
+			}
+		}
+		if M == nil {
+			e.res.Trivial = append(e.res.Trivial, tag+": no modulus of the statement exceeds the value")
+			return
+		}
+		nv, ok := residueLike(va, new(big.Int).Add(cur, M))
+		if !ok {
+			e.res.Trivial = append(e.res.Trivial, tag+": not a residue")
+			return
+		}
+		cp, serr := cloneSet(ra, rel, nv)
+		if serr != nil {
+			e.res.Inconclusive = append(e.res.Inconclusive, tag+": "+serr.Error())
+			return
+		}
+		proof = cp
 	default:
 		e.res.Inconclusive = append(e.res.Inconclusive, tag+": unknown perturbation kind")
 		return
@@ -379,4 +425,71 @@ func main() {
 		fmt.Fprintln(os.Stderr, err)
 		os.Exit(2)
 	}
+}
+
+// residueOf returns the value of a field that holds a non-negative big number (*saferith.Nat, *big.Int), else nil.
+func residueOf(v reflect.Value) *big.Int {
+	if !v.IsValid() || (v.Kind() == reflect.Ptr && v.IsNil()) {
+		return nil
+	}
+	switch x := v.Interface().(type) {
+	case *saferith.Nat:
+		return x.Big()
+	case *big.Int:
+		if x.Sign() < 0 {
+			return nil
+		}
+		return new(big.Int).Set(x)
+	}
+	return nil
+}
+
+func residueLike(v reflect.Value, val *big.Int) (reflect.Value, bool) {
+	switch v.Interface().(type) {
+	case *saferith.Nat:
+		return reflect.ValueOf(new(saferith.Nat).SetBig(val, val.BitLen())), true
+	case *big.Int:
+		return reflect.ValueOf(val), true
+	}
+	return reflect.Value{}, false
+}
+
+// moduliOf collects the moduli reachable from a public statement: Paillier keys, Pedersen parameters, plain moduli.
+func moduliOf(v reflect.Value, depth int) []*big.Int {
+	var out []*big.Int
+	if !v.IsValid() || depth > 4 {
+		return out
+	}
+	if v.CanInterface() {
+		switch x := v.Interface().(type) {
+		case *paillier.PublicKey:
+			if x != nil {
+				out = append(out, x.N().Big())
+			}
+			return out
+		case *pedersen.Parameters:
+			if x != nil {
+				out = append(out, x.N().Big())
+			}
+			return out
+		case *saferith.Modulus:
+			if x != nil {
+				out = append(out, x.Big())
+			}
+			return out
+		}
+	}
+	switch v.Kind() {
+	case reflect.Ptr, reflect.Interface:
+		if !v.IsNil() {
+			out = append(out, moduliOf(v.Elem(), depth+1)...)
+		}
+	case reflect.Struct:
+		for i := 0; i < v.NumField(); i++ {
+			if v.Type().Field(i).IsExported() {
+				out = append(out, moduliOf(v.Field(i), depth+1)...)
+			}
+		}
+	}
+	return out
 }
